@@ -18,23 +18,23 @@ import (
 // the vote log and whom the real code implicated.
 
 type EvQC struct {
-	View    string        `json:"view"`  // "rootHeight/round/phase"
-	Phase   string        `json:"phase"`
-	Payload string        `json:"payload"`
-	Bitmap  []string      `json:"bitmap"`
-	Sigs    []string      `json:"sigs"`
+	View    string   `json:"view"` // "rootHeight/round/phase"
+	Phase   string   `json:"phase"`
+	Payload string   `json:"payload"`
+	Bitmap  []string `json:"bitmap"`
+	Sigs    []string `json:"sigs"`
 }
 
 type EvLine struct {
-	Kind       string                         `json:"kind"` // "evidence"
-	Votes      map[string]map[string][]string `json:"votes"` // validator -> view key -> payloads signed
-	A          EvQC                           `json:"a"`
-	B          EvQC                           `json:"b"`
-	Err        string                         `json:"err"`
-	Implicated []string                       `json:"implicated"`
-	ListOK     bool                           `json:"listOK"`   // ValidateByzantineEvidence accepted a slash list naming exactly the implicated
-	ExtraOK    bool                           `json:"extraOK"`  // ... accepted a slash list naming an additional, not implicated validator
-	Equivocators []string                     `json:"equivocators"`
+	Kind         string                         `json:"kind"`  // "evidence"
+	Votes        map[string]map[string][]string `json:"votes"` // validator -> view key -> payloads signed
+	A            EvQC                           `json:"a"`
+	B            EvQC                           `json:"b"`
+	Err          string                         `json:"err"`
+	Implicated   []string                       `json:"implicated"`
+	ListOK       bool                           `json:"listOK"`  // ValidateByzantineEvidence accepted a slash list naming exactly the implicated
+	ExtraOK      bool                           `json:"extraOK"` // ... accepted a slash list naming an additional, not implicated validator
+	Equivocators []string                       `json:"equivocators"`
 }
 
 type evView struct {
@@ -42,7 +42,9 @@ type evView struct {
 	ph      string
 }
 
-func (v evView) key() string { return string(rune('0'+v.rh)) + "/" + string(rune('0'+v.rnd)) + "/" + v.ph }
+func (v evView) key() string {
+	return string(rune('0'+v.rh)) + "/" + string(rune('0'+v.rnd)) + "/" + v.ph
+}
 
 func evidenceMode(seed int64, logs int, outPath string) error {
 	f, err := os.Create(outPath)
